@@ -3,12 +3,14 @@
    whose next call blocks are skipped) - so every theorem below holds for every interleaving, every number of ranks, every sync
    frequency >= 0, every target, every initial island ages >= 0.
    Liveness is PARTIAL: proved are (a) no reachable state is stuck and (b) from every reachable state SOME continuation lets every
-   rank return (a lexicographic measure decreases along a suitably chosen enabled step) - the protocol has no trap; that EVERY
-   fair schedule satisfying the property's pacing premise (helpers do not produce age updates faster than rank 0 drains them)
-   reaches the final state is not proved (tested only). Blocking mode sends no message (island.evolve(n) on every rank): nothing
+   rank return (a lexicographic measure decreases along a suitably chosen enabled step) - the protocol has no trap; (c) once
+   rank 0 has left its loop, EVERY round-robin continuation (rounds = permutations of the ranks, in any order) completes the call
+   within Phi(state) rounds, with no pacing premise.  What is not proved: that rank 0 leaves its loop under every fair schedule
+   satisfying the property's pacing premise (helpers do not produce age updates faster than rank 0 drains them) - that phase is
+   tested on the stand-in only - and fairness notions weaker than round-robin. Blocking mode sends no message (island.evolve(n) on every rank): nothing
    to interleave. *)
 From Coq Require Import ZArith List Bool Lia.
-From Bingo Require Import Model.ParArch Proofs.ParArchProofs Proofs.ParArchLive.
+From Bingo Require Import Model.ParArch Proofs.ParArchProofs Proofs.ParArchLive Proofs.ParArchFair.
 Import ListNotations.
 
 Theorem C12_every_reachable_state_satisfies_the_protocol_invariant :
@@ -56,6 +58,16 @@ Theorem C12_from_every_reachable_state_the_call_can_still_complete_partial :
   exists more, final (run n sync target (sched ++ more) (init n target ages arch_age)) = true.
 Proof. intros n sync target Hn Hs ages arch_age sched. apply reachable_can_finish; assumption. Qed.
 Print Assumptions C12_from_every_reachable_state_the_call_can_still_complete_partial.
+
+(* fair termination, second phase: from any reachable state in which rank 0 is past its loop (sending exit notifications, in the
+   barrier, draining, or done), Phi(s) rounds - each a permutation of all ranks, in any order - end with every rank returned *)
+Theorem C12_after_the_loop_every_round_robin_continuation_completes_partial :
+  forall n sync target, (1 <= n)%nat -> (0 <= sync)%Z -> forall s rounds,
+  Inv n target s -> post_loop (pc_of s 0) = true ->
+  Forall (fun l => Permutation.Permutation l (seq 0 n)) rounds -> (Phi n s <= length rounds)%nat ->
+  final (run n sync target (concat rounds) s) = true.
+Proof. intros n sync target Hn Hs s rounds HI PL F B. apply (late_rounds_finish n sync target Hn Hs rounds s (conj HI PL) F B). Qed.
+Print Assumptions C12_after_the_loop_every_round_robin_continuation_completes_partial.
 
 (* REFUTED clause (known finding F13): "at return the mean island age has advanced by at least the requested number of
    generations" fails for a repeated call in which a helper's island is ahead of the archipelago's age: the loop compares the mean
